@@ -105,8 +105,14 @@ fn spell_char(rng: &mut Rng, c: char, style: Style, bytes_mode: bool) -> String 
         }
         if cp <= 0xffff {
             options.push(format!("\\u{cp:04x}"));
+            options.push(format!("\\u{cp:04X}"));
         }
         options.push(format!("\\U{cp:08x}"));
+        options.push(format!("\\U{cp:08X}"));
+        if cp <= 0xff {
+            options.push(format!("\\x{cp:02X}"));
+            options.push(format!("\\X{cp:02x}"));
+        }
     }
     rng.pick(&options).clone()
 }
@@ -285,6 +291,17 @@ pub fn generate(tier: Tier, rng: &mut Rng) -> Vec<Case> {
         for body in ["a\r\nb", "a\n\rb", "a\rb", "\r\n", "a\r\n\r\nb"] {
             push(&mut out, &spec, format!("{d}{body}{d}"), Some(want_str(body)), vec!["verbatim-line-breaks"]);
             push(&mut out, &spec, format!("r{d}{body}{d}"), Some(want_str(body)), vec!["verbatim-line-breaks", "raw"]);
+        }
+    }
+    // raw triple-quoted literals whose body ends in (or contains runs of) backslashes, with and
+    // without the other / their own quote character inside: the body is taken verbatim
+    for (d, own, other) in [("'''", '\'', '"'), ("\"\"\"", '"', '\'')] {
+        for body in ["C:\\dir\\", "\\", "\\\\", "\\\\\\", "a\\", "a\\\\", "x\\n\\", "\\u0041\\", "it{own}s a {other}path{other}: C:\\", "{own}\\", "{own}{own}\\", "a{own}b{own}{own}c\\\\\\", "{other}\\", "\\{other}", "\\{own}x\\"] {
+            let body = body.replace("{own}", &own.to_string()).replace("{other}", &other.to_string());
+            for prefix in ["r", "R"] {
+                push(&mut out, &spec, format!("{prefix}{d}{body}{d}"), Some(want_str(&body)), vec!["raw-triple-trailing-backslash", "raw"]);
+                push(&mut out, &spec, format!("b{prefix}{d}{body}{d}").replace("bR", "bR").replace("br", "br"), Some(want_bytes(body.as_bytes())), vec!["raw-triple-trailing-backslash", "raw", "bytes"]);
+            }
         }
     }
     // 3. malformed spellings must be compile errors
